@@ -123,7 +123,7 @@ def check_C03(tier, seed):
     drive_and_judge(rep, "C03", cases_from_S(r1.cases if quick else r1.cases[::4], "shape", "stages-shape"), "shape", keep)
     drive_and_judge(rep, "C03", cases_from_S(r2.cases, "ctx", "stages-ctx"), "ctx", keep)
     rc = random_shader_cases(rng, 1200 if quick else 30000, "rnd", "stages-random", n_fn=(0, 6), n_entry=(1, 5), depth=3, push=0.5)
-    drive_and_judge(rep, "C03", rc, "random", keep)
+    drive_and_judge(rep, "C03", rc + F.deep_use_cases(push=False) + F.deep_use_cases(push=True), "random", keep)
     # a subset is compiled against the recording device: the visibility VALUES the generated code passes, not their tokens
     sub = cases_from_S(r2.cases[::(60 if quick else 6)], "ctxr", "stages-ctx-recorded", vary_validate=False) + [dict(c, id="r" + c["id"], family="stages-random-recorded") for c in rc[:(80 if quick else 1500)]]
     compiled_and_judge(rep, "C03", sub, "recorded", "shim", {"pipeline_layout"}, keep=["groups"], enforce="C03R")
@@ -184,7 +184,7 @@ def check_C13(tier, seed):
     stages_mc(rep, quick, memo=MEMO, check_work=False)
     keep = ["push_stages", "pipeline_layout"]
     cases = F.push_cases(rng, 600 if quick else 12000)
-    drive_and_judge(rep, "C13", cases, "push", keep)
+    drive_and_judge(rep, "C13", cases + F.deep_use_cases(push=True), "push", keep)
     # the descriptor the compiled module really hands to the device (recording shim) ...
     sub = [dict(c, id="r" + c["id"], family="push-recorded") for c in cases[:(120 if quick else 2000)]]
     compiled_and_judge(rep, "C13", sub, "recorded", "shim", {"pipeline_layout"}, keep=["push_stages"], enforce="C13R")
@@ -344,7 +344,10 @@ def check_C18(tier, seed):
     open(os.path.join(plant, "shaders", "main.wgsl"), "w").write("")
     open(os.path.join(WORK, "runs", "x.wgsl"), "w").write("@compute @workgroup_size(1) fn unrelated() {}\n")
     evB = run_vdriver_raw("gen", list(reversed(L)), "C18_B", cwd=plant, clean_env=True,
-                          env={"RUST_BACKTRACE": "1", "TMPDIR": "/nonexistent", "LANG": "tr_TR.UTF-8", "VERIF_NOISE": str(rng.random())},
+                          env={"RUST_BACKTRACE": "1", "TMPDIR": "/nonexistent", "LANG": "tr_TR.UTF-8", "VERIF_NOISE": str(rng.random()),
+                               # variables a tool might be tempted to honour: a formatter override that is not a formatter, a config path, colour and log switches
+                               "RUSTFMT": "/bin/cat", "RUSTFMT_CONFIG": "/nonexistent/rustfmt.toml", "CARGO_PKG_RUST_VERSION": "1.56", "NO_COLOR": "1", "RUST_LOG": "trace",
+                               "WGSL_TO_WGPU_RUSTFMT": "0", "WGPU_VALIDATION": "0", "NAGA_CAPABILITIES": "0"},
                           extra=["--no-project", "--no-s"])
     # (iii) a third process with yet another order
     L3 = L[:]
@@ -363,6 +366,9 @@ def check_C18(tier, seed):
     fgroups = [{"id": "f-%04d" % i, "cases": [L[(i + q) % len(L)] for q in range(8)], "schedule": []} for i in range(0, len(L), 2)]
     large = [c for c in L if c["id"].startswith("h-large")]
     fgroups += [{"id": "f-large-%d" % i, "cases": [large[(i + q) % len(large)] for q in range(6)], "schedule": []} for i in range(3)]
+    # three times as many calls as cores inside the formatter at once
+    fmt_small = [dict(c, opts=dict(c["opts"], rustfmt=True)) for c in L[:6]]
+    fgroups += [{"id": "f-fmt-many-%d" % i, "cases": [fmt_small[(i + q) % len(fmt_small)] for q in range(3 * (os.cpu_count() or 16))], "schedule": []} for i in range(2)]
     evE = run_vdriver_raw("sched", fgroups, "C18_E")
     # (v') one long history in one process: 300 calls alternating over the shaders, then every shader once more
     longL = [dict(L[(7 * q) % len(L)], repeat=0) for q in range(300 if quick else 3000)] + [dict(c, repeat=0) for c in L]
@@ -664,7 +670,7 @@ def check_C10(tier, seed):
         ex = r.cases if not quick else r.cases[::2]
         for i, e in enumerate(ex):
             S = e["S"]
-            cases.append({"id": "enc-%s-%04d" % (mode, i), "family": "encase-" + mode, "S": S, "opts": F.opts(enc=True, mv="glam", bmv=(i % 2 == 0))})
+            cases.append({"id": "enc-%s-%04d" % (mode, i), "family": "encase-" + mode, "S": S, "opts": F.opts(enc=True, mv="glam", bmv=(i % 2 == 0), bmh=(i % 5 == 4))})
     # Inner additionally bound as a uniform: the uniform writer is exercised too
     for c in cases:
         for g in c["S"]["globals"]:
@@ -684,7 +690,7 @@ def check_C10(tier, seed):
         cases.append({"id": "enc-" + name, "family": "encase-special", "S": S, "opts": F.opts(enc=True, mv="glam")})
     for i in range(30 if quick else 600):
         S, has_rt = F.role_shader(rng, big_arrays=False)
-        cases.append({"id": "enc-role-%04d" % i, "family": "encase-roles", "S": S, "opts": F.opts(enc=True, mv="glam", bmv=(i % 2 == 0))})
+        cases.append({"id": "enc-role-%04d" % i, "family": "encase-roles", "S": S, "opts": F.opts(enc=True, mv="glam", bmv=(i % 2 == 0), bmh=(i % 5 == 4))})
     # structs with two roles: vertex input AND storage-bound (padding-free so that the bytemuck vertex derive accepts them)
     V2 = {"k": "vec", "n": 2, "s": "f32"}
     V4 = F.VEC4
@@ -728,6 +734,8 @@ def check_C02(tier, seed):
     r2 = run_mc("MC_StagesCtx.tla", "MC_StagesCtx.cfg", workers=8, consts={"DA": "1", "DC": "1" if quick else "2", "Memo": "TRUE" if MEMO else "FALSE"})
     rep.add_mc("MC_StagesCtx", r2, "exported shaders validated by real pipeline creation")
     ctx = cases_from_S(r2.cases[::(2 if quick else 1)], "ctx", "stages-ctx", vary_validate=False)
+    # a buffer that only the innermost helper of a long call chain touches (procedure calls and value-returning calls)
+    ctx += [{"id": "deep-%d-%s" % (d, "ret" if ret else "void"), "family": "deep-call-chain", "S": F.chain(d, ret), "opts": F.opts()} for d in (31, 33, 40, 70, 100) for ret in (False, True)]
     compiled_and_judge(rep, "C02", ctx, "ctx", "realrun", want, keep=["groups"])
     rep.assumptions.append("device: wgpu-core 24.0.5 on wgpu-hal's no-op backend with every feature enabled (render pipelines: without TEXTURE_ADAPTER_SPECIFIC_FORMAT_FEATURES), limits max_bind_groups=8; float textures filterable / samplers filtering as documented")
     return finish(rep)
